@@ -467,9 +467,13 @@ class Expander:
             body_text = body_text[:bo_] + '{ vx_unproved_branch() }' + body_text[bc_ + 1:]
             self.local_rewrites.append({'fn': label, 'regex': rx, 'replacement': '<block stubbed: unproved branch>', 'count': 1})
         # ghost insertion (proof blocks only): `ghost-before: <regex> => <proof text>`; the executable text is untouched
-        for ln in sections.get('ghost-before', []):
+        # (`opt-ghost-before`: the same, but a text in which the place is gone is verified without the hint - the obligations stay)
+        for optional_, ln in [(False, x) for x in sections.get('ghost-before', [])] + [(True, x) for x in sections.get('opt-ghost-before', [])]:
             rx, rep = ln.split(' => ', 1)
             m = re.search(rx.strip(), body_text)
+            if not m and optional_:
+                self.local_rewrites.append({'fn': label, 'regex': rx.strip(), 'replacement': '<optional ghost block: place not found, nothing inserted>', 'count': 0})
+                continue
             if not m:
                 raise AnchorLost('%s: ghost-before /%s/ no longer matches' % (label, rx.strip()))
             if not rep.strip().startswith(('proof {', 'assert', 'broadcast use')):
@@ -741,7 +745,7 @@ class Expander:
                         if not m:
                             raise SystemExit('bad directive line: ' + l2)
                         key = m.group(1)
-                        if key in ('replace', 'opt-replace', 'stub-block', 'ghost-before', 'ghost-after', 'ghost-before-all', 'ghost-after-all'):
+                        if key in ('replace', 'opt-replace', 'stub-block', 'ghost-before', 'opt-ghost-before', 'ghost-after', 'ghost-before-all', 'ghost-after-all'):
                             sections.setdefault(key, []).append(m.group(2))
                             cur = None
                         else:
